@@ -561,6 +561,25 @@ func runC11(c *Ctx, r *Report) {
 		}
 		r.Floor("C07.R9", 15)
 	}
+	// shared C04.R4: a map is a memoization key only in its by-value representation (a large map is updated in
+	// place: keyed by pointer, every observation through a memoized function would be frozen at first call)
+	if !r.Sub {
+		r.Rule("C04.R4", "(shared) Hashable accepts the MAP tag only after narrowing to the by-value representation; components are checked recursively")
+		sub := NewReport("C04", r.Tier, c)
+		sub.Sub = true
+		c.checkHashable(sub)
+		for _, o := range sub.Obls {
+			if !strings.Contains(o.Desc, "MAP") && !strings.Contains(o.Desc, "SmallMap") {
+				continue
+			}
+			switch o.status {
+			case FAIL:
+				r.Fail(o.Rule, o.Func, o.Desc, o.Pos, o.Reason)
+			default:
+				r.Ok(o.Rule, o.Func, o.Desc, o.Pos)
+			}
+		}
+	}
 }
 
 func baseOf(v ssa.Value) ssa.Value {
